@@ -190,14 +190,6 @@ class C17(Prop):
                 kinds.add("dsub" if dsub else "depth%d" % min(depth, 3))
         return "+".join(sorted(kinds)) or "no-names"
 
-    def finding_of(self, case, obs):
-        if "ok" not in obs["state"] or not case["names"]:
-            return None
-        d = obs["state"]["ok"]
-        if all(walk_info(d, nm)[1] for nm in case["names"]):
-            return "F-C17b"
-        return None
-
     def shrink_candidates(self, case):
         names = case["names"]
         if len(names) > 1:
@@ -216,14 +208,23 @@ class C17(Prop):
 
     # ---- fresh copy: aliasing, by snapshot on the real objects ------------
     def extra_checks(self, tier, seed):
+        """Sessions of several lookups on one tree (different names incl. default
+        shortcuts and configuration(None); one collection object mounted under
+        two parents).  After every lookup the returned mapping is scribbled over
+        and every collection's stored configuration plus a re-read of the same
+        name are compared with snapshots."""
         rng = random.Random(seed + 17)
         n = 150 if tier == "quick" else 2500
         evals, failures = 0, []
 
-        def all_colls(c):
+        def all_colls(c, seen=None):
+            seen = set() if seen is None else seen
+            if id(c) in seen:
+                return
+            seen.add(id(c))
             yield c
             for s in dict.values(c.collections):
-                yield from all_colls(s)
+                yield from all_colls(s, seen)
 
         def scribble(d, rng):
             for k in list(d):
@@ -238,29 +239,52 @@ class C17(Prop):
 
         for _ in range(n):
             ids = ns.Ids()
-            spec = ns.gen_coll(rng, rng.choice([2, 3]), ids, name=None, clean=True)
+            spec = ns.gen_coll(rng, rng.choice([2, 3]), ids, name=None, clean=True,
+                               p_subdefault=0.5, p_default=0.8)
             coll, st = ns.build_and_dump(spec)
             if coll is None:
                 continue
-            names = ns.resolvable_names(st["ok"]) + [None]
-            for nm in rng.sample(names, min(4, len(names))):
+            colls = list(all_colls(coll))
+            if len(colls) > 2 and rng.random() < 0.5:
+                # mount an existing sub-collection object under a second parent
+                shared = rng.choice(colls[1:])
+                below = set(id(c) for c in all_colls(shared))
+                parents = [c for c in colls if id(c) not in below]   # no cycles
                 try:
-                    before = [copy.deepcopy(c._configuration) for c in all_colls(coll)]
+                    rng.choice(parents).add_collection(shared, name="shared")
+                except ValueError:
+                    pass
+            st = {"ok": ns.dump(coll)}
+            names = ns.resolvable_names(st["ok"]) + [None, None]
+            session = [rng.choice(names) for _ in range(rng.randint(3, 7))]
+            stored = [copy.deepcopy(c._configuration) for c in all_colls(coll)]
+            expected = {}
+            bad = None
+            for nm in session:
+                try:
                     first = coll.configuration(nm)
-                    ref = copy.deepcopy(first)
-                    scribble(first, rng)
-                    after = [c._configuration for c in all_colls(coll)]
-                    again = coll.configuration(nm)
                 except Exception:  # lookups that fail are judged by the shard cases
                     continue
                 evals += 1
-                if before != after or again != ref:
-                    failures.append({"case": {"script": spec, "names": [nm]},
-                                     "what": "mutating the mapping returned by configuration(%r) changed stored configuration" % (nm,)})
+                ref = copy.deepcopy(first)
+                if nm in expected and expected[nm] != ref:
+                    bad = "configuration(%r) changed between two reads of one session" % (nm,)
                     break
+                expected[nm] = ref
+                scribble(first, rng)
+                if [c._configuration for c in all_colls(coll)] != stored:
+                    bad = "mutating the mapping returned by configuration(%r) changed a stored configuration" % (nm,)
+                    break
+                if coll.configuration(nm) != ref:
+                    bad = "re-read of configuration(%r) differs after mutating the first result" % (nm,)
+                    break
+            if bad:
+                failures.append({"case": {"script": spec, "names": session}, "what": bad})
+                break
         return [{"name": "fresh-copy-snapshot", "evaluations": evals, "failures": failures,
-                 "note": "aliasing half of C17 (test, not theorem): returned mapping scribbled over, every "
-                         "collection's stored _configuration and a second read compared with snapshots"}]
+                 "note": "aliasing half of C17 (test, not theorem): sessions of 3-7 lookups per tree (names, aliases, "
+                         "default shortcuts, None; a collection mounted under two parents), every returned mapping "
+                         "scribbled over, all stored _configuration dicts and re-reads compared with snapshots"}]
 
 
 def _shared_section(d, name):
